@@ -113,7 +113,7 @@ func executeKeySet(t *testing.T, prop string, seed uint64, p *KeySetPlan) *core.
 		sc.NoEOF = true
 		var conn *ech.Conn
 		var err error
-		if pk, m, s := core.Guard(func() { conn, err = ech.NewConn(context.Background(), sc, ech.WithKeys(echKeys(specs))) }); pk {
+		if pk, m, s := core.Guard(func() { conn, err = ech.NewConn(context.Background(), sc, keyOptions(echKeys(specs))...) }); pk {
 			fail("panic", s+": "+normMsg(m), "NewConn")
 			continue
 		}
